@@ -1,0 +1,228 @@
+// MIT License
+//
+// Copyright (c) 2022-2026 GoAkt Team
+//
+// Permission is hereby granted, free of charge, to any person obtaining a copy
+// of this software and associated documentation files (the "Software"), to deal
+// in the Software without restriction, including without limitation the rights
+// to use, copy, modify, merge, publish, distribute, sublicense, and/or sell
+// copies of the Software, and to permit persons to whom the Software is
+// furnished to do so, subject to the following conditions:
+//
+// The above copyright notice and this permission notice shall be included in all
+// copies or substantial portions of the Software.
+//
+// THE SOFTWARE IS PROVIDED "AS IS", WITHOUT WARRANTY OF ANY KIND, EXPRESS OR
+// IMPLIED, INCLUDING BUT NOT LIMITED TO THE WARRANTIES OF MERCHANTABILITY,
+// FITNESS FOR A PARTICULAR PURPOSE AND NONINFRINGEMENT. IN NO EVENT SHALL THE
+// AUTHORS OR COPYRIGHT HOLDERS BE LIABLE FOR ANY CLAIM, DAMAGES OR OTHER
+// LIABILITY, WHETHER IN AN ACTION OF CONTRACT, TORT OR OTHERWISE, ARISING FROM,
+// OUT OF OR IN CONNECTION WITH THE SOFTWARE OR THE USE OR OTHER DEALINGS IN THE
+// SOFTWARE.
+
+//go:build verif
+
+package actor
+
+import (
+	"context"
+	"time"
+
+	"google.golang.org/protobuf/types/known/durationpb"
+
+	"github.com/tochemey/goakt/v4/discovery"
+	gerrors "github.com/tochemey/goakt/v4/errors"
+	"github.com/tochemey/goakt/v4/internal/cluster"
+	"github.com/tochemey/goakt/v4/internal/codec"
+	"github.com/tochemey/goakt/v4/internal/internalpb"
+	"github.com/tochemey/goakt/v4/internal/remoteclient"
+	"github.com/tochemey/goakt/v4/remote"
+)
+
+// VerifJoinCluster turns a started, remoting-enabled actor system into a
+// cluster member that uses cl as its cluster engine and node as its cluster
+// identity, and starts the singleton manager. When route is not nil, the four
+// remoting calls the grain and singleton protocols use (RemoteActivateGrain,
+// RemoteAskGrain, RemoteTellGrain, RemoteSpawn) are delivered in-process: the
+// request is built like the remoting client builds it and handed, on the calling
+// goroutine, to the server-side handler of the actor system route returns for
+// the target host and port. Verification harness only.
+func VerifJoinCluster(ctx context.Context, sys ActorSystem, cl cluster.Cluster, node *discovery.Node, route func(host string, port int) ActorSystem) error {
+	x := sys.(*actorSystem)
+	x.locker.Lock()
+	x.cluster = cl
+	x.clusterNode = node
+	if route != nil {
+		x.remoting = &verifLoopback{Client: x.remoting, route: route}
+	}
+	x.locker.Unlock()
+	x.clusterEnabled.Store(true)
+	return x.spawnSingletonManager(ctx)
+}
+
+// VerifLeaveCluster detaches the actor system from the engine installed by
+// VerifJoinCluster so that Stop does not try to shut that engine down.
+func VerifLeaveCluster(sys ActorSystem) {
+	x := sys.(*actorSystem)
+	x.clusterEnabled.Store(false)
+	x.locker.Lock()
+	x.cluster = nil
+	x.locker.Unlock()
+}
+
+// VerifGrainState projects the local grain table: whether identity has a
+// process in the grains map and whether that process is activated.
+func VerifGrainState(sys ActorSystem, identity string) (present, active bool) {
+	x := sys.(*actorSystem)
+	pid, ok := x.grains.Get(identity)
+	if !ok {
+		return false, false
+	}
+	return true, pid.isActive()
+}
+
+// VerifGrainIdentity builds the identity of the grain of the given kind and
+// name without activating anything.
+func VerifGrainIdentity(kind Grain, name string) *GrainIdentity { return newGrainIdentity(kind, name) }
+
+// VerifPassivateGrain runs the passivation manager's deactivation decision
+// (passivationTry) for the process currently registered under identity, on the
+// calling goroutine, exactly as the passivation manager does when the idle
+// deadline of a grain expires. It reports whether a process was registered and
+// whether it was deactivated.
+func VerifPassivateGrain(sys ActorSystem, identity string) (found, done bool) {
+	x := sys.(*actorSystem)
+	pid, ok := x.grains.Get(identity)
+	if !ok {
+		return false, false
+	}
+	return true, pid.passivationTry("verif")
+}
+
+// verifLoopback replaces the TCP hop of the remoting calls used by the grain
+// and singleton protocols by a direct call of the target system's handler.
+type verifLoopback struct {
+	remoteclient.Client
+	route func(host string, port int) ActorSystem
+}
+
+func (l *verifLoopback) target(host string, port int) *actorSystem {
+	sys := l.route(host, port)
+	if sys == nil {
+		return nil
+	}
+	return sys.(*actorSystem)
+}
+
+func (l *verifLoopback) RemoteActivateGrain(ctx context.Context, host string, port int, grainRequest *remote.GrainRequest) error {
+	grain, err := remoteclient.VerifGrainFromRequest(host, port, grainRequest)
+	if err != nil {
+		return err
+	}
+	t := l.target(host, port)
+	if t == nil {
+		return gerrors.ErrRemoteSendFailure
+	}
+	resp, err := t.remoteActivateGrainHandler(ctx, nil, &internalpb.RemoteActivateGrainRequest{Grain: grain})
+	if err != nil {
+		return err
+	}
+	return remoteclient.VerifCheckProtoError(resp)
+}
+
+func (l *verifLoopback) RemoteAskGrain(ctx context.Context, host string, port int, grainRequest *remote.GrainRequest, message any, timeout time.Duration) (any, error) {
+	grain, err := remoteclient.VerifGrainFromRequest(host, port, grainRequest)
+	if err != nil {
+		return nil, err
+	}
+	serializer := l.Serializer(message)
+	if serializer == nil {
+		return nil, gerrors.NewErrInvalidMessage(gerrors.ErrInvalidMessage)
+	}
+	marshaled, err := serializer.Serialize(message)
+	if err != nil {
+		return nil, gerrors.NewErrInvalidMessage(err)
+	}
+	t := l.target(host, port)
+	if t == nil {
+		return nil, gerrors.ErrRemoteSendFailure
+	}
+	resp, err := t.remoteAskGrainHandler(ctx, nil, &internalpb.RemoteAskGrainRequest{Grain: grain, Message: marshaled, RequestTimeout: durationpb.New(timeout)})
+	if err != nil {
+		return nil, err
+	}
+	if err := remoteclient.VerifCheckProtoError(resp); err != nil {
+		return nil, err
+	}
+	askResp, ok := resp.(*internalpb.RemoteAskGrainResponse)
+	if !ok {
+		return nil, gerrors.ErrInvalidResponse
+	}
+	return serializer.Deserialize(askResp.GetMessage())
+}
+
+func (l *verifLoopback) RemoteTellGrain(ctx context.Context, host string, port int, grainRequest *remote.GrainRequest, message any) error {
+	grain, err := remoteclient.VerifGrainFromRequest(host, port, grainRequest)
+	if err != nil {
+		return err
+	}
+	serializer := l.Serializer(message)
+	if serializer == nil {
+		return gerrors.NewErrInvalidMessage(gerrors.ErrInvalidMessage)
+	}
+	marshaled, err := serializer.Serialize(message)
+	if err != nil {
+		return gerrors.NewErrInvalidMessage(err)
+	}
+	t := l.target(host, port)
+	if t == nil {
+		return gerrors.ErrRemoteSendFailure
+	}
+	resp, err := t.remoteTellGrainHandler(ctx, nil, &internalpb.RemoteTellGrainRequest{Grain: grain, Message: marshaled})
+	if err != nil {
+		return err
+	}
+	return remoteclient.VerifCheckProtoError(resp)
+}
+
+func (l *verifLoopback) RemoteSpawn(ctx context.Context, host string, port int, spawnRequest *remote.SpawnRequest) (*string, error) {
+	if err := spawnRequest.Validate(); err != nil {
+		return nil, err
+	}
+	spawnRequest.Sanitize()
+	var singletonSpec *internalpb.SingletonSpec
+	if spawnRequest.Singleton != nil {
+		singletonSpec = &internalpb.SingletonSpec{
+			SpawnTimeout: durationpb.New(spawnRequest.Singleton.SpawnTimeout),
+			WaitInterval: durationpb.New(spawnRequest.Singleton.WaitInterval),
+			MaxRetries:   spawnRequest.Singleton.MaxRetries,
+		}
+	}
+	t := l.target(host, port)
+	if t == nil {
+		return nil, gerrors.ErrRemoteSendFailure
+	}
+	resp, err := t.remoteSpawnHandler(ctx, nil, &internalpb.RemoteSpawnRequest{
+		Host:                host,
+		Port:                int32(port),
+		ActorName:           spawnRequest.Name,
+		ActorType:           spawnRequest.Kind,
+		Singleton:           singletonSpec,
+		Relocatable:         spawnRequest.Relocatable,
+		PassivationStrategy: codec.EncodePassivationStrategy(spawnRequest.PassivationStrategy),
+		EnableStash:         spawnRequest.EnableStashing,
+		Role:                spawnRequest.Role,
+		Supervisor:          codec.EncodeSupervisor(spawnRequest.Supervisor),
+	})
+	if err != nil {
+		return nil, err
+	}
+	if err := remoteclient.VerifCheckProtoError(resp); err != nil {
+		return nil, err
+	}
+	if res, ok := resp.(*internalpb.RemoteSpawnResponse); ok && res.GetAddress() != "" {
+		addr := res.GetAddress()
+		return &addr, nil
+	}
+	return nil, gerrors.ErrInvalidResponse
+}
